@@ -8,7 +8,7 @@ ID = "C05"
 LEVEL = "exploration"
 BUDGET = {"quick": 50, "thorough": 900}
 QUICK_CASES = 5000  # generator items in the quick tier (fixed amount of work; BUDGET is then only a safety cap)
-FLOOR = {"quick": 1500, "thorough": 3000}
+FLOOR = {"quick": 1500, "thorough": 1500}  # conclusive cases below which a run is inconclusive (the thorough tier is time-budgeted: same floor)
 TIMEOUT = 60
 REQUIRED_OBS = ["runs_observed", "holds_started", "false_holds_started", "wait_until_returns", "evaluations_modelled"]
 RULE = (
